@@ -40,32 +40,63 @@ MANIFEST = {
             "all eight name look-ups is AST-translated to functions on code points and proved equal to the model's for every name; "
             "the statement order of setup_common_environment, the shape of dict_flatten and the removed transform keys are "
             "translated tables satisfying decidable predicates. Differential correspondence runs the real setup_common_environment / setup_engine / "
-            "build_transforms_from_environment on all files and on mutated files and diffs verdict and error class.",
+            "build_transforms_from_environment on all files and on mutated files and diffs verdict and error class. "
+            "Phase 3 (Props/GuardsC20.lean, Model/ConfigGuard.lean; 36 further theorems): the VALUES — an AST extractor turns the "
+            "argument-validation statements of every model / masking-function / dataset constructor (membership tests, if/elif/else-raise "
+            "chains, all(lo<f<hi), isinstance-int, len-in, -1-or-range against another parameter, asserts, base-class guards through "
+            "super().__init__, guards that only fire in forward, `for key in kwargs: raise` loops) and of _compute_resolution into a guard "
+            "table; a three-valued evaluator with Python's DirectEnum.__eq__ / OmegaConf conversion semantics proves that every "
+            "shipped model block, masking block, dataset block and every dataclass default passes the guards of the class it is "
+            "routed to (all decided on the model blocks), that every architecture / update-rule value selects a named branch of the "
+            "dispatches that have no raising else (_get_model_config, ConjGrad.cg), that no str-typed field defaults to an enum member, "
+            "that Model(**cfg) / Dataset(transform, **cfg) / MaskFunc(**init_args) bind including the keyword loops, that "
+            "validation.crop / training.loss.crop / inference.crop (files and defaults) are accepted by _compute_resolution and "
+            "training.optimizer is a torch.optim class, that every cfg.a.b.c chain under direct/ and every cfg.model.<field> an engine "
+            "reads is a declared field, that every str_to_class site is a modelled look-up, that no file uses interpolation, that the "
+            "transform schema and build_mri_transforms agree in both directions and dict_flatten never merges two keys; the merge stage is "
+            "specified by iff theorems (mergeCheck_spec, rawBlockCheck_spec, list_any_unchecked + dataset_blocks_untyped = exactly what the "
+            "real merge does not look at). Correspondence for all of it: real constructors on the meta device, real "
+            "build_masking_function / dataset constructors over an empty data root, the real test expressions of the dispatch chains, "
+            "real _compute_resolution, real attribute access on the structured config.",
     "note": "Partial: instantiation of torch modules, engines, masking functions and transform objects is run (meta device for "
-            "all files, CPU for a sample; everything on CPU in the thorough tier), not proved; value-level checks inside "
-            "constructors are outside the schema model. Training/validation dataset blocks are not type-checked by the real "
-            "merge (ListConfig merge replaces the typed list) and the model mirrors that. Trusted: Lean kernel, the "
-            "introspecting generator, OmegaConf, synthetic Calgary-Campinas masks served instead of the download (no network), "
+            "all files, CPU for a sample; everything on CPU in the thorough tier), not proved. Value-level checks: the guard "
+            "language covers the statement shapes listed above; 23 raising statements are outside it (conditions on derived "
+            "values such as self.domain_sequence, len(list-of-modules), file-system checks) and are reported as opaque, not judged; "
+            "guards of transform classes reached through build_mri_transforms (RescaleKspace, PadKspace, RandomRotation) and the "
+            "conv_activation values that travel through **kwargs are covered by real instantiation only. project_attribute_chains is "
+            "_partial: a never-called function of projects/calgary_campinas/predict_test.py reads cfg.inference.dataset.transforms.crop "
+            "(witness uncalled_chain_current_violates). Training/validation dataset blocks are not type-checked by the real "
+            "merge (proved: list_any_unchecked) and the model mirrors that. Trusted: Lean kernel, the "
+            "introspecting generator and the guard extractor, OmegaConf, synthetic Calgary-Campinas masks served instead of the download (no network), "
             "torchvision/tensorboard stubs, logging set-up skipped.",
-    "technique": "Lean 4 kernel evaluation over generated finite tables + generic lemmas about the checker + differential "
-                 "correspondence + real instantiation sweep",
+    "technique": "Lean 4 kernel evaluation over generated finite tables + generic lemmas about the checker and the guard evaluator + "
+                 "differential correspondence + real instantiation sweep",
 }
 TRUSTED = [
     "Lean 4.33 kernel; axioms ⊆ {propext, Classical.choice, Quot.sound}; decide +kernel on generated tables",
     "harness/translate/recipes/c20.py: introspection of the live dataclasses / modules / signatures and YAML parsing into Lean data",
+    "harness/translate/recipes/c20_guards.py: AST extraction of guards, dispatch chains, keyword loops, attribute chains, "
+    "str_to_class sites (a statement it cannot read is counted as opaque, never as a passing guard)",
     "OmegaConf 2.3 (its loader parses the YAML files; its merge is the reference the model is diffed against)",
     "sandbox stub: synthetic .npy masks (218x170/174/180) served to CalgaryCampinasMaskFunc instead of download_url (no network)",
     "sandbox stubs of boot.py (torchvision.utils.make_grid, tensorboard SummaryWriter); setup_logging replaced by a no-op",
     "torch meta device stands for allocation-free construction of the modules in the quick tier",
+    "an empty directory stands for the data root when dataset constructors are run (no data in the sandbox)",
 ]
 ASSUMPTIONS = [
     "instantiation of models / engines / masking functions / transforms is executed, not proved",
     "strings are compared by interned id; the id table is regenerated with the trees on every run",
-    "non-ASCII upper-case letters do not occur in model names (ASCII lower() in the model)",
+    "non-ASCII upper-case letters do not occur in model names or enum values (ASCII lower() in the model)",
+    "the three call chains from validation.crop / training.loss.crop / inference.crop to _compute_resolution are declared in the "
+    "recipe and re-checked syntactically on every run (consumers_verified); other consumers of configuration values are not traced",
+    "a function whose name occurs only once in direct/, projects/ and tools/ is taken to be never called (project_attribute_chains)",
 ]
 RULE = ("one case per shipped YAML file (verdict of the whole pipeline), per mutated file (unknown key / ill-typed value / "
         "deleted or renamed name at typed and untyped positions), per (schema, value) pair sent through OmegaConf.merge and "
-        "validate, per name resolved; non-trivial = the tree has at least one dataset block or the value is not accepted "
+        "validate, per name resolved, per (constructor, parameter, candidate value) sent through the real constructor and the "
+        "guard evaluator (allowed constants, case variants, other enum members, numeric neighbours, wrong lengths), per keyword "
+        "offered to a constructor, per consumer value, per attribute chain (extracted, corrupted, shortened), per optimizer name; "
+        "non-trivial = the tree has at least one dataset block or the value is not accepted "
         "trivially (Any); distinct = distinct protocol line")
 
 # keys of findings on the current tree that the lead has not yet repaired or listed as known (still reported)
@@ -1682,6 +1713,64 @@ def report_only(info) -> dict:
             "dataset_base_classes_without_config": list(info.dataset_bases)}
 
 
+def phase3_report(info) -> dict:
+    """observations that are not violations of the property as stated (never a verdict)"""
+    import enum as _enum
+    import importlib
+    import inspect
+    import typing
+
+    vacuous = sorted({f"{gc['module']}.{gc['attr']}: guard on `{g['param']}` vs `{g['guard'][1]}` can never fire ({g['where']}:{g['line']})"
+                      for gc in info.guard_classes for g in gc["guards"] if g["guard"][0] == "vacuous"})
+    opaque = sorted({o for gc in info.guard_classes for o in gc["opaque"]})
+    mismatched = []
+    for gc in info.guard_classes:
+        if gc["route"] != 0:
+            continue
+        cfg_cls = info.schema_classes.get((gc["module"].rsplit(".", 1)[0] + ".config", gc["attr"] + "Config"))
+        if cfg_cls is None:
+            continue
+        try:
+            hints = typing.get_type_hints(getattr(importlib.import_module(gc["module"]), gc["attr"]).__init__)
+            ch = typing.get_type_hints(cfg_cls)
+        except Exception:  # noqa: BLE001
+            continue
+        for p_, h in hints.items():
+            core = [a for a in typing.get_args(h) if a is not type(None)] if typing.get_origin(h) is typing.Union else [h]
+            if len(core) == 1 and inspect.isclass(core[0]) and issubclass(core[0], _enum.Enum) and p_ in ch:
+                fh = ch[p_]
+                fcore = [a for a in typing.get_args(fh) if a is not type(None)] if typing.get_origin(fh) is typing.Union else [fh]
+                if fcore != core:
+                    mismatched.append(f"{cfg_cls.__name__}.{p_}: {getattr(fcore[0], '__name__', fcore[0])} "
+                                      f"(constructor parameter: {core[0].__name__})")
+    diffs = []
+    try:
+        from omegaconf import OmegaConf
+
+        from direct.data.datasets_config import TransformsConfig
+        from direct.utils import dict_flatten, remove_keys
+
+        for k, v in dict_flatten(remove_keys(OmegaConf.structured(TransformsConfig), "masking")).items():
+            bd = info.builder_defaults.get(k, "NODEFAULT")
+            vv = OmegaConf.to_container(v) if OmegaConf.is_config(v) else v
+            b2 = list(bd) if isinstance(bd, (list, tuple)) else bd
+            if vv != b2:
+                diffs.append(f"{k}: TransformsConfig {vv!r} vs build_mri_transforms {bd!r}")
+    except Exception as e:  # noqa: BLE001
+        diffs.append(f"not computed: {e!r}")
+    return {
+        "note": "report only — none of these is a violation of the property as stated",
+        "transform_defaults_typed_vs_untyped_blocks": diffs,
+        "guards_that_can_never_fire": vacuous[:3] + ([f"… {len(vacuous) - 3} more (inherited)"] if len(vacuous) > 3 else []),
+        "raising_statements_outside_the_guard_language": opaque,
+        "config_fields_swallowed_by_kwargs_and_never_read": info.dead_model_keys,
+        "str_typed_fields_of_enum_annotated_parameters": mismatched,
+        "never_called_functions_reading_undeclared_chains": sorted({f"{c[0]}:{c[4]} reads cfg.{'.'.join(c[2])}"
+                                                                    for c in info.cfg_chains if not c[5]}),
+        "unmodelled_str_to_class_sites": [f"{a}:{b}" for a, b, _m, ok in info.str_to_class_sites if not ok],
+    }
+
+
 # --------------------------------------------------------------------------------------------------
 def _failure_key(rel: str, f: dict) -> str:
     fns = f.get("functions") or []
@@ -1730,6 +1819,10 @@ def oracle(ctx: Ctx, deep: bool = False):
         ctx.notes.append({"report_only_untyped_dataset_blocks": report_only(info)})
     except Exception as e:  # noqa: BLE001 — a report must never turn into a verdict
         ctx.notes.append(f"report-only section failed: {e!r}")
+    try:
+        ctx.notes.append({"report_only_phase3": phase3_report(info)})
+    except Exception as e:  # noqa: BLE001
+        ctx.notes.append(f"phase-3 report section failed: {e!r}")
     res = _STATE["results"]
     grouped: dict[str, list] = {}
     for key, r in sorted(res.items(), key=lambda kv: repr(kv[0])):
